@@ -503,6 +503,123 @@ Section PumpTheorems.
 End PumpTheorems.
 
 (* ------------------------------------------------------------------------------------------------ *)
+(* Part 1d: a ragged end under standard_compatible=False leaves the other direction alone (fix c5df3e8) *)
+(* ------------------------------------------------------------------------------------------------ *)
+
+Lemma flush_eofs s : bin_eof (fst (flush s)) = bin_eof s /\ bout_eof (fst (flush s)) = bout_eof s.
+Proof. unfold flush. destruct (bout s); split; reflexivity. Qed.
+
+Lemma on_ev_again_eofs s e s' : std s = false -> on_ev s e = (s', Again) ->
+  bin_eof s' = bin_eof s /\ bout_eof s' = bout_eof s.
+Proof.
+  intros Hs. unfold on_ev. destruct (ek e); try discriminate.
+  - destruct (flush s) as [s1 t]; destruct (is_txok t); discriminate.
+  - pose proof (flush_eofs s) as [F1 F2]. pose proof (flush_frame s) as [F3 _].
+    destruct (flush s) as [s1 t]. cbn [fst] in *. destruct t; try discriminate.
+    unfold do_recv, pop_rx. destruct (rxs s1) as [|r rest].
+    + destruct (rx_tail s1) as [r|]; [|discriminate]. destruct r; try discriminate.
+      * cbn. destruct (bin_eof s1) eqn:E; [discriminate|]. intros H. injection H as <-. cbn. split; congruence.
+      * cbn. rewrite F3, Hs. discriminate.
+    + destruct r; try discriminate.
+      * cbn. destruct (bin_eof s1) eqn:E; [discriminate|]. intros H. injection H as <-. cbn. split; congruence.
+      * cbn. rewrite F3, Hs. discriminate.
+  - cbn. destruct (is_txok _); [|discriminate]. intros H. injection H as <-. cbn. split; reflexivity.
+Qed.
+
+Lemma on_ev_ragged s e s' : std s = false -> ek e = KWantRead -> on_ev s e = (s', Done REndOfStream) ->
+  bin_eof s' = bin_eof s /\ bout_eof s' = bout_eof s /\ bout s' = [] /\ txs s' = txs (fst (flush s)) /\
+  produced s' = produced s /\
+  exists p tr, trace s' = tr ++ [CRecv p RxEof].
+Proof.
+  intros Hs Hk. unfold on_ev. rewrite Hk.
+  pose proof (flush_eofs s) as [F1 F2]. pose proof (flush_frame s) as [F3 _]. pose proof (flush_bout s) as F4.
+  assert (F5 : produced (fst (flush s)) = produced s) by (unfold flush; destruct (bout s); reflexivity).
+  destruct (flush s) as [s1 t]. cbn [fst] in *. destruct t; try discriminate.
+  unfold do_recv, pop_rx. destruct (rxs s1) as [|r rest].
+  - destruct (rx_tail s1) as [r|]; [|discriminate]. destruct r; try discriminate.
+    + cbn. destruct (bin_eof s1); discriminate.
+    + cbn. rewrite F3, Hs. intros H. injection H as <-. cbn. repeat split; auto. eexists _, _. reflexivity.
+  - destruct r; try discriminate.
+    + cbn. destruct (bin_eof s1); discriminate.
+    + cbn. rewrite F3, Hs. intros H. injection H as <-. cbn. repeat split; auto. eexists _, _. reflexivity.
+Qed.
+
+Lemma ok_flush s f e : ek e = KOk -> bout s = [] -> hd TxOk (txs s) = TxOk ->
+  exists s2, on_ev (apply_ev s f e) e = (s2, Done (RVal (eval e))) /\
+    sent_of (trace s2) = sent_of (trace s) ++ eemit e /\ bout s2 = [] /\
+    produced s2 = produced s ++ eemit e /\
+    bin s2 = skipn (econs e) (bin s) /\ bin_eof s2 = bin_eof s /\ bout_eof s2 = bout_eof s.
+Proof.
+  destruct e as [k v c em]. cbn [ek eval eemit econs]. intros -> Hb Htx.
+  unfold on_ev. cbn [ek]. unfold flush, apply_ev. cbn [bout eemit]. rewrite Hb. cbn [app].
+  destruct em as [|x em].
+  - cbn. eexists. split; [reflexivity|]. cbn. rewrite !app_nil_r. repeat split; auto.
+  - unfold do_send. cbn [txs]. destruct (txs s) as [|t0 tr0]; cbn in Htx |- *.
+    + eexists. split; [reflexivity|]. cbn. rewrite sent_of_app. cbn. rewrite app_nil_r. repeat split; auto.
+    + subst t0. cbn. eexists. split; [reflexivity|]. cbn. rewrite sent_of_app. cbn. rewrite app_nil_r. repeat split; auto.
+Qed.
+
+Section RaggedEof.
+  Variable O : Type.
+  Variable ocall : O -> func -> list byte -> bool -> option (O * sslev).
+
+  Lemma pump_ragged fuel : forall o f s o1 s1 pre e,
+    std s = false -> pump O ocall fuel o f s = (o1, s1, REndOfStream) ->
+    olog s1 = pre ++ [(f, e)] -> ek e = KWantRead ->
+    bin_eof s1 = bin_eof s /\ bout_eof s1 = bout_eof s /\ bout s1 = [] /\ exists p tr, trace s1 = tr ++ [CRecv p RxEof].
+  Proof.
+    induction fuel as [|k IH]; intros o f s o1 s1 pre e Hs; cbn [pump]; [discriminate|].
+    unfold iter. destruct (ocall o f (bin s) (bin_eof s)) as [[o' e']|]; [|discriminate].
+    destruct (on_ev (apply_ev s f e') e') as [s2 nx] eqn:Ev.
+    pose proof (on_ev_frame (apply_ev s f e') e') as [F1 F2]. rewrite Ev in F1, F2. cbn in F1, F2.
+    destruct nx as [r|].
+    - intros H Hl Hk. injection H as <- <- ->. rewrite F2 in Hl. apply app_inj_tail in Hl. destruct Hl as [_ Hl].
+      injection Hl as <-.
+      destruct (on_ev_ragged (apply_ev s f e') e' s2 Hs Hk Ev) as (H1 & H2 & H3 & _ & _ & H4). cbn in H1, H2. auto.
+    - intros H Hl Hk. destruct (on_ev_again_eofs (apply_ev s f e') e' s2 Hs Ev) as [H1 H2]. cbn in H1, H2.
+      destruct (IH _ _ _ _ _ _ _ (eq_trans F1 Hs) H Hl Hk) as (I1 & I2 & I3 & I4).
+      exact (conj (eq_trans I1 H1) (conj (eq_trans I2 H2) (conj I3 I4))).
+  Qed.
+
+  (* After a receive() that ended with the transport's EndOfStream under standard_compatible=False - the SSL
+     object's last answer was "want read", so the end was the transport's, not a verdict of the SSL object - neither
+     BIO has been marked at EOF, nothing is pending, and a following send() IS the SSL object's write on untouched
+     BIOs, with its ciphertext flushed to the transport: exactly as if the end had not been seen. *)
+  Theorem pump_ragged_eof_keeps_send_alive fuel o s n o1 s1 pre e :
+    std s = false ->
+    step O ocall fuel (o, s) (OReceive n) = ((o1, s1), REndOfStream) ->
+    olog s1 = pre ++ [(FRead n, e)] -> ek e = KWantRead ->
+    bin_eof s1 = bin_eof s /\ bout_eof s1 = bout_eof s /\ bout s1 = [] /\
+    (exists p tr, trace s1 = tr ++ [CRecv p RxEof]) /\
+    forall item o2 e2 fuel2,
+      ocall o1 (FWrite item) (bin s1) (bin_eof s) = Some (o2, e2) -> ek e2 = KOk ->
+      hd TxOk (txs s1) = TxOk ->
+      exists s2, step O ocall (S fuel2) (o1, s1) (OSend item) = ((o2, s2), RVal []) /\
+        sent_of (trace s2) = sent_of (trace s1) ++ eemit e2 /\ bout s2 = [] /\
+        produced s2 = produced s1 ++ eemit e2 /\
+        bin s2 = skipn (econs e2) (bin s1) /\ bin_eof s2 = bin_eof s /\ bout_eof s2 = bout_eof s.
+  Proof.
+    intros Hs Hst Hl Hk. cbn [step] in Hst. destruct n as [|n]; [discriminate|].
+    destruct (pump O ocall fuel o (FRead (S n)) s) as [[o1' s1'] r] eqn:Ep.
+    assert (E : o1' = o1 /\ s1' = s1 /\ (r = REndOfStream \/ r = RVal [])).
+    { destruct r as [[|x v]| | | | | | | |]; inversion Hst; auto. }
+    destruct E as (-> & -> & [-> | ->]).
+    - destruct (pump_ragged fuel _ _ _ _ _ _ _ Hs Ep Hl Hk) as (H1 & H2 & H3 & H4).
+      refine (conj H1 (conj H2 (conj H3 (conj H4 _)))).
+      intros item o2 e2 fuel2 Hc Hk2 Htx. rewrite <- H1 in Hc.
+      destruct (ok_flush s1 (FWrite item) e2 Hk2 H3 Htx) as (s2 & Hev & R1 & R2 & R3 & R4 & R5 & R6).
+      exists s2. cbn [step pump]. unfold iter. rewrite Hc, Hev.
+      split; [reflexivity|]. repeat split; auto; congruence.
+    - (* an empty read: the last answer would be KOk, not KWantRead *)
+      exfalso. assert (Hr : RVal (@nil nat) <> RStuck) by discriminate.
+      destruct (pump_spec O ocall fuel _ _ _ _ _ _ Ep Hr) as (_ & pre' & e' & Hl' & _ & Hres).
+      rewrite Hl in Hl'. apply app_inj_tail in Hl'. destruct Hl' as [_ Hl']. injection Hl' as <-.
+      unfold res_of_ev in Hres. rewrite Hk in Hres.
+      destruct Hres as [H|[H|[[H _]|[H _]]]]; discriminate.
+  Qed.
+End RaggedEof.
+
+(* ------------------------------------------------------------------------------------------------ *)
 (* Part 2: the toy record layer                                                                      *)
 (* ------------------------------------------------------------------------------------------------ *)
 
@@ -1056,12 +1173,13 @@ Lemma run_J m fuel ops : forallb sendrecv ops = true ->
   (In RBroken rs -> 0 < D /\ std s = true) /\
   std (snd w') = std s /\
   produced (snd w') = produced s ++ concat (map (records m) (accepted ops rs)) /\
-  (std s = false \/ D = 0 -> accepted ops rs = sends_of ops).
+  (std s = false \/ D = 0 -> accepted ops rs = sends_of ops /\ bout (snd w') = []).
 Proof.
   intros Hops. induction ops as [|a ops IH]; intros D frs ib pb pc s HJ; cbn zeta.
   - cbn. refine (conj _ (conj _ (conj _ (conj _ (conj _ (conj eq_refl (conj _ _))))))); try tauto.
     + exists (pb ++ concat frs). reflexivity.
     + now rewrite app_nil_r.
+    + intros _. split; [reflexivity|]. apply (S_bout _ (J_s1 _ _ _ _ _ _ _ HJ)).
   - cbn in Hops. apply andb_prop in Hops. destruct Hops as [Ha Hops]. specialize (IH Hops).
     assert (Hfuel1 : 1 <= fuel) by (pose proof (J_fuel _ _ _ _ _ _ _ HJ); lia).
     rewrite trun_cons.
@@ -1150,7 +1268,7 @@ Proof.
       * intros [H|H]; [discriminate|]. rewrite <- Hstd. auto.
       * congruence.
       * rewrite I6, Hprod. cbn [map concat]. now rewrite <- app_assoc.
-      * intros Hc. rewrite I7; [reflexivity|]. now rewrite Hstd.
+      * intros Hc. destruct I7 as [I7 I8]; [now rewrite Hstd|]. rewrite I7. auto.
 Qed.
 
 (* ---- the handshake ---- *)
@@ -1360,7 +1478,8 @@ Theorem tls_endpoint_transparent m sc pitems chunks D ops fuel :
   produced s' = hello_rec ++ concat (map (records m) (accepted (OHandshake :: ops) rs)) /\
   sent_of (trace s') ++ bout s' = produced s' /\
   (In REndOfStream rs -> D <= 2 -> received (OHandshake :: ops) rs = concat pitems) /\
-  (sc = false \/ D = 0 -> 2 <= length (concat chunks) -> accepted (OHandshake :: ops) rs = sends_of ops).
+  (sc = false \/ D = 0 -> 2 <= length (concat chunks) ->
+   accepted (OHandshake :: ops) rs = sends_of ops /\ bout s' = []).
 Proof.
   intros Hops (tl & Hw & Htl) Hfuel. cbn zeta.
   assert (Hsent : forall out, out = trun fuel (init_tobj m, ep0 sc chunks) (OHandshake :: ops) ->
@@ -1614,16 +1733,16 @@ Qed.
 Lemma in_repeat_recv n k : forallb sendrecv (repeat (OReceive n) k) = true.
 Proof. induction k; cbn; auto. Qed.
 
-Lemma drain_J m fuel n : forall k D frs ib pb pc s,
+Lemma drain_J m fuel n rest : forall k D frs ib pb pc s,
   J fuel D frs ib pb pc s -> length (pb ++ concat frs) < k ->
-  let rs := snd (trun fuel (alive m ib pb pc, s) (repeat (OReceive (S n)) k)) in
+  let rs := snd (trun fuel (alive m ib pb pc, s) (repeat (OReceive (S n)) k ++ rest)) in
   In REndOfStream rs \/ In RBroken rs.
 Proof.
-  induction k as [|k IH]; intros D frs ib pb pc s HJ Hk; [lia|]. cbn zeta. cbn [repeat]. rewrite trun_cons.
+  induction k as [|k IH]; intros D frs ib pb pc s HJ Hk; [lia|]. cbn zeta. cbn [repeat app]. rewrite trun_cons.
   destruct (recv_step m fuel D frs ib pb pc s n HJ) as (o' & s' & r & Hst & Hs & Hcase). rewrite Hst. cbv beta iota.
   destruct Hcase as [(v & frs' & ib' & pb' & -> & Hv & -> & HJ' & Hpl)|[(-> & _)|[(_ & -> & _)|(_ & -> & _)]]].
   - specialize (IH D frs' ib' pb' false s' HJ'). cbn zeta in IH.
-    destruct (trun fuel (alive m ib' pb' false, s') (repeat (OReceive (S n)) k)) as [w' rs]. cbn [fst snd] in *.
+    destruct (trun fuel (alive m ib' pb' false, s') (repeat (OReceive (S n)) k ++ rest)) as [w' rs]. cbn [fst snd] in *.
     assert (Hl : length (pb' ++ concat frs') < k).
     { rewrite Hpl in Hk. rewrite app_length in Hk. destruct v; [contradiction|]. cbn in Hk. lia. }
     destruct (IH Hl); [left|right]; now right.
@@ -1654,8 +1773,8 @@ Proof.
     { exact Hfuel. }
     rewrite Hst. cbv beta iota.
     destruct Hcase as [(-> & ib' & -> & HJ)|(-> & HD & Hdead & _)].
-    - pose proof (drain_J m fuel n k D (frs_of m pitems) ib' [] false s1 HJ) as H. cbn zeta in H.
-      rewrite frs_of_concat in H. specialize (H Hk).
+    - pose proof (drain_J m fuel n [] k D (frs_of m pitems) ib' [] false s1 HJ) as H. cbn zeta in H.
+      rewrite app_nil_r in H. rewrite frs_of_concat in H. specialize (H Hk).
       destruct (trun fuel (alive m ib' [] false, s1) (repeat (OReceive (S n)) k)) as [w' rs]. cbn [snd] in *.
       destruct H; [left|right]; now right.
     - destruct (trun fuel (o', s1) _) as [w' rs]. cbn [snd]. destruct sc; [right|left]; now left. }
@@ -1669,6 +1788,119 @@ Proof.
     destruct Hterm as [He|Hb]; [auto|contradiction].
   - intros HD Hsc. assert (Hnb : ~ In RBroken rs) by (intros H; apply T4 in H; destruct H; congruence).
     destruct Hterm as [He|Hb]; [auto|contradiction].
+Qed.
+
+(* ---- half-close by the peer without close_notify, then traffic in the other direction (fix c5df3e8) ---- *)
+Lemma sendrecv_recvs_sends n k items : forallb sendrecv (repeat (OReceive n) k ++ map OSend items) = true.
+Proof.
+  rewrite forallb_app. rewrite in_repeat_recv. cbn. induction items as [|i items IH]; cbn; auto.
+Qed.
+
+Lemma sends_of_recvs_sends n k items : sends_of (repeat (OReceive n) k ++ map OSend items) = items.
+Proof.
+  induction k as [|k IH]; cbn [repeat app sends_of]; [|exact IH].
+  induction items as [|i items IH]; cbn; [reflexivity|now rewrite IH].
+Qed.
+
+Lemma wire_close m items : wire m items true = wire m items false ++ close_rec.
+Proof. unfold wire. now rewrite app_nil_r, <- !app_assoc. Qed.
+
+(* Not standard_compatible.  The client handshakes, sends its request `req` and ends its sending direction WITHOUT
+   close_notify (chunksS = any chunking of exactly that).  The server reads to the end (EndOfStream), THEN sends
+   `replies`: every send is accepted and goes out on the wire; the client, fed any chunking of what the server sent,
+   receives the replies byte for byte. *)
+Theorem tls_half_close_reply_delivered m req replies chunksS chunksC n k kc fuel :
+  concat chunksS = wire m req false ->
+  length (concat req) < k -> length (concat replies) < kc ->
+  length chunksS + 3 <= fuel -> length chunksC + 3 <= fuel ->
+  let opsS := OHandshake :: repeat (OReceive (S n)) k ++ map OSend replies in
+  let outS := trun fuel (init_tobj m, ep0 false chunksS) opsS in
+  received opsS (snd outS) = concat req /\ In REndOfStream (snd outS) /\ ~ In RBroken (snd outS) /\
+  accepted opsS (snd outS) = replies /\
+  sent_of (trace (snd (fst outS))) = wire m replies false /\
+  (concat chunksC = sent_of (trace (snd (fst outS))) ->
+   let opsC := OHandshake :: repeat (OReceive (S n)) kc in
+   received opsC (snd (trun fuel (init_tobj m, ep0 false chunksC) opsC)) = concat replies).
+Proof.
+  intros HwS Hk Hkc HfS HfC. cbn zeta.
+  assert (Hw : exists tl, wire m req true = concat chunksS ++ tl /\ length tl = 2).
+  { exists close_rec. split; [|reflexivity]. rewrite HwS. apply wire_close. }
+  assert (Hlen : 2 <= length (concat chunksS)).
+  { rewrite HwS. unfold wire. rewrite app_length. cbn. lia. }
+  destruct (tls_endpoint_transparent m false req chunksS 2 (repeat (OReceive (S n)) k ++ map OSend replies) fuel
+              (sendrecv_recvs_sends (S n) k replies) Hw HfS) as (T1 & T2 & T3 & T4 & T5 & T6 & T7 & T8).
+  cbn zeta in *.
+  destruct (T8 (or_introl eq_refl) Hlen) as [T8a T8b].
+  assert (Hterm : In REndOfStream (snd (trun fuel (init_tobj m, ep0 false chunksS)
+                     (OHandshake :: repeat (OReceive (S n)) k ++ map OSend replies)))).
+  { assert (Hor : In REndOfStream (snd (trun fuel (init_tobj m, ep0 false chunksS)
+                     (OHandshake :: repeat (OReceive (S n)) k ++ map OSend replies))) \/
+                  In RBroken (snd (trun fuel (init_tobj m, ep0 false chunksS)
+                     (OHandshake :: repeat (OReceive (S n)) k ++ map OSend replies)))).
+    { rewrite trun_cons. destruct Hw as (tl & Hw & Htl).
+      destruct (hs_step m false chunksS 2 (frs_of m req) fuel (frs_of_nonempty m req)) as (o' & s1 & r & Hst & Hstd & Hprod & Hcase).
+      { exists tl. split; [|exact Htl]. rewrite <- Hw. unfold wire. now rewrite frs_of_records. }
+      { exact HfS. }
+      rewrite Hst. cbv beta iota.
+      destruct Hcase as [(-> & ib' & -> & HJ)|(_ & _ & _ & Hshort)]; [|lia].
+      pose proof (drain_J m fuel n (map OSend replies) k 2 (frs_of m req) ib' [] false s1 HJ) as H. cbn zeta in H.
+      rewrite frs_of_concat in H. specialize (H Hk).
+      destruct (trun fuel (alive m ib' [] false, s1) _) as [w' rs]. cbn [snd] in *.
+      destruct H; [left|right]; now right. }
+    destruct Hor as [H|H]; [exact H|]. apply T4 in H. destruct H; discriminate. }
+  assert (Hacc : accepted (OHandshake :: repeat (OReceive (S n)) k ++ map OSend replies)
+                   (snd (trun fuel (init_tobj m, ep0 false chunksS)
+                      (OHandshake :: repeat (OReceive (S n)) k ++ map OSend replies))) = replies).
+  { rewrite T8a. cbn [sends_of]. apply sends_of_recvs_sends. }
+  assert (Hsent : sent_of (trace (snd (fst (trun fuel (init_tobj m, ep0 false chunksS)
+                      (OHandshake :: repeat (OReceive (S n)) k ++ map OSend replies))))) = wire m replies false).
+  { rewrite T8b, app_nil_r in T6. rewrite T6, T5, Hacc. unfold wire. now rewrite app_nil_r. }
+  refine (conj (T7 Hterm (le_n 2)) (conj Hterm (conj _ (conj Hacc (conj Hsent _))))).
+  - intros H. apply T4 in H. destruct H; discriminate.
+  - intros HwC.
+    assert (HwC' : exists tl, wire m replies true = concat chunksC ++ tl /\ length tl = 2).
+    { exists close_rec. split; [|reflexivity]. rewrite HwC, Hsent. apply wire_close. }
+    destruct (tls_receive_all m false replies chunksC 2 n kc fuel HwC' HfC Hkc) as (_ & _ & _ & R4).
+    apply R4; auto.
+Qed.
+
+(* The pump as it was before c5df3e8 hands the transport's end to the SSL object also when not standard_compatible.
+   Same toy SSL object, same transport script, same operations: the server reports EndOfStream, the SSL object is
+   poisoned, the reply is refused and never reaches the wire - the theorem above is false of the pinned pump. *)
+Theorem tls_half_close_reply_delivered_refuted_pinned :
+  exists m req replies chunksS n k fuel,
+    concat chunksS = wire m req false /\ length (concat req) < k /\ length chunksS + 3 <= fuel /\
+    let opsS := OHandshake :: repeat (OReceive (S n)) k ++ map OSend replies in
+    let outS := trun_pinned fuel (init_tobj m, ep0 false chunksS) opsS in
+    received opsS (snd outS) = concat req /\ In REndOfStream (snd outS) /\
+    accepted opsS (snd outS) = [] /\ replies <> [] /\
+    sent_of (trace (snd (fst outS))) = wire m [] false /\
+    (* ... whereas the fixed pump delivers *)
+    accepted opsS (snd (trun fuel (init_tobj m, ep0 false chunksS) opsS)) = replies /\
+    sent_of (trace (snd (fst (trun fuel (init_tobj m, ep0 false chunksS) opsS)))) = wire m replies false.
+Proof.
+  exists 1, [[1; 2; 3]], [[7; 8]], (map (fun b => [b]) (wire 1 [[1; 2; 3]] false)), 4, 4, 20.
+  split; [vm_compute; reflexivity|]. split; [vm_compute; lia|]. split; [vm_compute; lia|]. cbn zeta.
+  split; [vm_compute; reflexivity|]. split; [vm_compute; auto 10|]. split; [vm_compute; reflexivity|].
+  split; [discriminate|]. split; [vm_compute; reflexivity|]. split; vm_compute; reflexivity.
+Qed.
+
+(* The same with a scripted SSL object that answers like OpenSSL 3 does once it has seen the EOF (the unexpected-EOF
+   error again, for read AND for write): under the pinned pump send() raises EndOfStream and writes nothing, and the
+   incoming BIO is at EOF - so the conclusions of pump_ragged_eof_keeps_send_alive fail.  The fixed pump, on a
+   transport that ends in the same place, never tells the SSL object, which therefore performs the write. *)
+Theorem pump_ragged_eof_keeps_send_alive_refuted_pinned :
+  exists (poisoned healthy : list sslev),
+    let out := srun_pinned 5 (poisoned, init_pst false [] (Some RxEof) []) [OReceive 10; OSend [1; 2]] in
+    snd out = [REndOfStream; REndOfStream] /\ sent_of (trace (snd (fst out))) = [] /\
+    bin_eof (snd (fst out)) = true /\ bout_eof (snd (fst out)) = true /\
+    let out' := srun 5 (healthy, init_pst false [] (Some RxEof) []) [OReceive 10; OSend [1; 2]] in
+    snd out' = [REndOfStream; RVal []] /\ sent_of (trace (snd (fst out'))) = [23; 3; 3; 0; 2; 2; 3] /\
+    bin_eof (snd (fst out')) = false /\ bout_eof (snd (fst out')) = false.
+Proof.
+  exists [mkev KWantRead [] 0 []; mkev KEofCls [] 0 []; mkev KEofCls [] 0 []],
+         [mkev KWantRead [] 0 []; mkev KOk [2] 0 [23; 3; 3; 0; 2; 2; 3]].
+  vm_compute. repeat split.
 Qed.
 
 (* ------------------------------------------------------------------------------------------------ *)
@@ -1718,6 +1950,15 @@ Proof. vm_compute. reflexivity. Qed.
 Example ex_receive_value :
   snd (srun 3 ([mkev KOk [7; 8] 0 []], init_pst true [] None []) [OReceive 2]) = [RVal [7; 8]].
 Proof. vm_compute. reflexivity. Qed.
+
+(* hypotheses of pump_ragged_eof_keeps_send_alive: the end is the transport's, the SSL object then writes *)
+Example ex_ragged_hyp :
+  let w := (([mkev KWantRead [] 0 []; mkev KOk [2] 0 [23; 3]], init_pst false [] (Some RxEof) []) : list sslev * pst) in
+  let out := sstep 3 w (OReceive 10) in
+  snd out = REndOfStream /\ std (snd w) = false /\
+  olog (snd (fst out)) = [(FRead 10, mkev KWantRead [] 0 [])] /\
+  scall (fst (fst out)) (FWrite [1; 2]) (bin (snd (fst out))) false = Some ([], mkev KOk [2] 0 [23; 3]).
+Proof. vm_compute. repeat split. Qed.
 
 (* toy record layer, records of at most 2 plaintext bytes *)
 Definition ex_items : list (list byte) := [[10; 11; 12]; []; [13]].
